@@ -1,7 +1,7 @@
 (* C06 — within-line emphasis marks exactly what changed.  Statements only. *)
 From Coq Require Import List Bool NArith Arith.
 Import ListNotations.
-From DV Require Import Text Align AlignFacts Tokenize TokenizeFacts.
+From DV Require Import Text Align AlignFacts Tokenize TokenizeFacts Realign Pairing PairingFacts.
 
 (* The tokens of a line concatenate to the line, and the first token is the empty token —
    for every tokeniser of this shape (any word predicate). *)
@@ -38,4 +38,25 @@ Proof. intros T eqb H d x y. exact (emphasis_sound T eqb H d x y). Qed.
 Example C06_example :
   operations text text_eqb [[]; [97;97;97]; [32]; [98;98]]%N [[]; [97;97;97]; [32]; [99;99]]%N
   = [ONoOp; ONoOp; ONoOp; ODel; OIns].
+Proof. vm_compute. reflexivity. Qed.
+
+(* Line pairing (the loop of infer_edits over the removed and added lines of a block, for any
+   closeness oracle): every removed and every added line is named exactly once, each side in
+   input order — so pairs never cross — and this is exactly the shape wrap_minusplus_block
+   asserts (C07_realign_total's hypothesis) ... *)
+Theorem C06_pairing_ordered : forall close m p, ordered (line_alignment close m p) 0 0 = true.
+Proof. exact line_alignment_ordered. Qed.
+
+Theorem C06_pairing_counts : forall close m p,
+  nleft (line_alignment close m p) = m /\ nright (line_alignment close m p) = p.
+Proof. exact line_alignment_counts. Qed.
+
+(* ... and two lines are paired only when the oracle says they are close *)
+Theorem C06_pairs_are_close : forall close m p i j,
+  In (EB i j) (line_alignment close m p) -> close i j = true.
+Proof. intros close m p i j H. exact (proj1 (pair_from_pairs close m 0 0 p i j H)). Qed.
+
+Example C06_pairing_example :
+  line_alignment (close_of [[false; true; false]; [false; false; false]; [false; false; true]]) 3 4 =
+  [ER 0; EB 0 1; EL 1; EB 2 2; ER 3].
 Proof. vm_compute. reflexivity. Qed.
